@@ -111,7 +111,8 @@ def run_isolated(seed_id, checks=None, tier="quick", key="detected_by"):
     """Evaluate a seeded change without touching /repo: scratch worktree + scratch copy of /verif, both removed afterwards.
     `checks` is a comma-separated list of check ids (default: the seeded change's own property)."""
     d = SEEDED / seed_id
-    meta = json.loads((d / "meta.json").read_text())
+    clean = seed_id == "clean"          # no patch: the checks must stay quiet (run beside whatever else is going on)
+    meta = {} if clean else json.loads((d / "meta.json").read_text())
     pids = checks.split(",") if checks else [meta["property"]]
     tag = f"{seed_id}_{os.getpid()}"
     wt, vc = f"/tmp/wte_{tag}", f"/tmp/vce_{tag}"
@@ -121,7 +122,7 @@ def run_isolated(seed_id, checks=None, tier="quick", key="detected_by"):
         return 2
     results = {}
     try:
-        rc, out = sh(f"git -C {wt} apply {d / 'patch.diff'}")
+        rc, out = (0, "") if clean else sh(f"git -C {wt} apply {d / 'patch.diff'}")
         if rc:
             print("patch does not apply", out)
             return 2
@@ -142,6 +143,8 @@ def run_isolated(seed_id, checks=None, tier="quick", key="detected_by"):
         sh(f"git -C {REPO} worktree remove --force {wt}")
         shutil.rmtree(wt, ignore_errors=True)
         shutil.rmtree(vc, ignore_errors=True)
+    if clean:
+        return 0 if all(v["exit"] == 0 for v in results.values()) else 1
     meta = json.loads((d / "meta.json").read_text())
     meta.setdefault(key, {}).update(results)
     (d / "meta.json").write_text(json.dumps(meta, indent=1))
